@@ -524,6 +524,28 @@ def _follow_rules(ctx: Ctx, rs: RuleSet):
            f'ret={ret_ok})', ctx.loc(fp, fp.node))
 
 
+def map_children_rule(ctx: Ctx, rs: RuleSet, rule: str):
+  """map_children rebuilds every traversable value (no shortcut returns)."""
+  mc = ctx.func(f'{DAG}.State.map_children')
+  g = ctx.cfg(mc)
+  val = mc.params[1]
+  rets = [g.stmt[n] for n in g.nodes() if isinstance(g.stmt[n], ast.Return)]
+  leaf = [r for r in rets if unparse(r.value) == val]
+  unfl = [r for r in rets if isinstance(r.value, ast.Call) and isinstance(
+      r.value.func, ast.Attribute) and r.value.func.attr == 'unflatten']
+  ok = len(leaf) == 1 and len(unfl) == 1 and len(rets) == 2
+  if ok:
+    u = unfl[0].value
+    ok = (len(u.args) == 2 and unparse(u.args[0]).endswith('.values') and
+          unparse(u.args[1]).endswith('.metadata') and
+          unparse(u.args[0]).split('.')[0] == unparse(u.args[1]).split('.')[0])
+  rs.check(ok, rule, f'{mc.qualname}',
+           'non-traversable values are returned unchanged; traversable ones '
+           'are rebuilt by unflatten(result.values, result.metadata) of the '
+           'same traverser', ctx.loc(mc, mc.node))
+
+
+
 def _shape_rules(ctx: Ctx, rs: RuleSet):
   p = ctx.p
   rule = 'SHAPE.traversal-api'
@@ -596,24 +618,7 @@ def _shape_rules(ctx: Ctx, rs: RuleSet):
   rs.check(ok and len(ys) >= 2 and len(z) == 1, rule, f'{ym.qualname}',
            f'{len(ys)} yields, each self.call(child, element); generic branch '
            'zips flatten values with path elements', ctx.loc(ym, ym.node))
-  # map_children
-  mc = ctx.func(f'{DAG}.State.map_children')
-  g = ctx.cfg(mc)
-  val = mc.params[1]
-  rets = [g.stmt[n] for n in g.nodes() if isinstance(g.stmt[n], ast.Return)]
-  leaf = [r for r in rets if unparse(r.value) == val]
-  unfl = [r for r in rets if isinstance(r.value, ast.Call) and isinstance(
-      r.value.func, ast.Attribute) and r.value.func.attr == 'unflatten']
-  ok = len(leaf) == 1 and len(unfl) == 1 and len(rets) == 2
-  if ok:
-    u = unfl[0].value
-    ok = (len(u.args) == 2 and unparse(u.args[0]).endswith('.values') and
-          unparse(u.args[1]).endswith('.metadata') and
-          unparse(u.args[0]).split('.')[0] == unparse(u.args[1]).split('.')[0])
-  rs.check(ok, rule, f'{mc.qualname}',
-           'non-traversable values are returned unchanged; traversable ones '
-           'are rebuilt by unflatten(result.values, result.metadata) of the '
-           'same traverser', ctx.loc(mc, mc.node))
+  map_children_rule(ctx, rs, rule)
   # collect_paths_by_id uses an un-memoized traversal and appends current_path
   cp = ctx.func(f'{DAG}.collect_paths_by_id')
   uses_basic = any(unparse(c.func) == 'BasicTraversal' for c in ctx.calls(cp))
@@ -625,6 +630,24 @@ def _shape_rules(ctx: Ctx, rs: RuleSet):
       if isinstance(c.func, ast.Attribute) and c.func.attr == 'append' and (
           c.args and unparse(c.args[0]).endswith('.current_path')):
         ok = True
+  walk_ok = False
+  if tv is not None:
+    gt = ctx.cfg(tv)
+    walks = {n for n in gt.nodes() if any(
+        isinstance(e, ast.Call) and isinstance(e.func, ast.Attribute) and
+        e.func.attr == 'yield_map_child_values'
+        for e in cfg_lib.walk_node(gt, n))}
+    # every path through the callback reaches the child walk: a node reached
+    # again through another parent is walked again (that is what makes the
+    # result *all* paths)
+    walk_ok = bool(walks) and gt.exit not in gt.reach(
+        [gt.entry], blocked=walks, labels=cfg_lib.NO_EXC)
+  rs.check(walk_ok, rule, f'{cp.qualname}:walk-unconditional',
+           'the children are walked on every visit (also when a shared node '
+           'is reached again)' if walk_ok else
+           'a path through the callback returns without walking the '
+           'children: paths below a shared node are recorded only under its '
+           'first parent', ctx.loc(cp, cp.node))
   rs.check(uses_basic and not uses_memo and ok, rule, f'{cp.qualname}',
            'all-paths collection walks every path (BasicTraversal) and '
            'appends state.current_path per visit', ctx.loc(cp, cp.node))
